@@ -41,7 +41,7 @@ use std::future::{poll_fn, Future};
 use std::panic::{catch_unwind, AssertUnwindSafe};
 use std::pin::Pin;
 use std::rc::Rc;
-use std::sync::atomic::{AtomicBool, Ordering};
+use std::sync::atomic::{AtomicBool, AtomicU64, Ordering};
 use std::sync::{Arc, Mutex};
 use std::task::{Context, Poll, Wake, Waker};
 use uuid::Uuid;
@@ -200,7 +200,7 @@ fn gen_program(r: &mut Rng, who: usize, len: usize, o: GenOpts, out: &mut Vec<(u
                 svcs += 1;
             }
             15..=18 if svcs > 0 => {
-                let cmd = *r.pick(&[0u64, 0, 0, 0, 1, 2]);
+                let cmd = *r.pick(&[0u64, 0, 0, 0, 0, 0, 0, 1, 2]);
                 push(out, "sv", idx, cmd, r.below(3));
                 if cmd != 0 {
                     svcs -= 1;
@@ -221,7 +221,13 @@ fn gen_program(r: &mut Rng, who: usize, len: usize, o: GenOpts, out: &mut Vec<(u
                 push(out, "aw", idx, 0, 0);
                 held -= 1;
             }
-            41..=43 if prox > 0 => push(out, "su", idx, r.below(3), 0),
+            41..=43 if prox > 0 => {
+                push(out, "su", idx, r.below(3), 0);
+                if r.below(2) == 0 {
+                    push(out, "pe", idx, 1 + r.below(4), 0);
+                    i += 1;
+                }
+            }
             44 if prox > 0 => push(out, "us", idx, r.below(3), 0),
             45..=46 if prox > 0 => push(out, "sa", idx, 0, 0),
             47 if prox > 0 => push(out, "ua", idx, 0, 0),
@@ -297,6 +303,11 @@ fn gen_program(r: &mut Rng, who: usize, len: usize, o: GenOpts, out: &mut Vec<(u
             }
             91..=92 if bl < 2 => {
                 push(out, "bc", 0, 0, 0);
+                if r.below(2) == 0 {
+                    push(out, "bf", bl as u64, r.below(4), 0);
+                    push(out, "bs", bl as u64, r.below(3), 0);
+                    i += 2;
+                }
                 bl += 1;
             }
             93 if bl > 0 => push(out, "bf", idx, r.below(4), *r.pick(&[0u64, 0, 0, 1, 2])),
@@ -386,6 +397,27 @@ async fn try_poll<T>(tries: u32, mut f: impl FnMut(&mut Context) -> Poll<T>) -> 
 
 static LAST_PANIC: Mutex<Option<String>> = Mutex::new(None);
 
+/// name of the function whose body contains `path:line` (panic messages start with `path:line: `)
+fn enclosing_fn(msg: &str) -> String {
+    let mut it = msg.splitn(3, ':');
+    let (Some(path), Some(line)) = (it.next(), it.next()) else { return "?".into() };
+    let Ok(line) = line.trim().parse::<usize>() else { return "?".into() };
+    let Ok(src) = std::fs::read_to_string(path) else { return "?".into() };
+    let lines: Vec<&str> = src.lines().collect();
+    for l in lines[..line.min(lines.len())].iter().rev() {
+        if let Some(i) = l.find("fn ") {
+            let before = &l[..i];
+            if before.trim().chars().all(|c| c.is_alphanumeric() || c == ' ' || c == '(' || c == ')' || c == '_') {
+                let name: String = l[i + 3..].chars().take_while(|c| c.is_alphanumeric() || *c == '_').collect();
+                if !name.is_empty() {
+                    return name;
+                }
+            }
+        }
+    }
+    "?".into()
+}
+
 fn install_hook() {
     std::panic::set_hook(Box::new(|info| {
         let loc = info.location().map(|l| format!("{}:{}", l.file(), l.line())).unwrap_or_default();
@@ -406,17 +438,42 @@ fn install_hook() {
 type Tx = Box<dyn AsyncTransport<Error = Disconnected> + Unpin>;
 type Log = Rc<RefCell<Vec<(bool, Message)>>>; // (true = sent by the client, message)
 
+/// incremented by the executor before every task poll; a transport that is polled for input
+/// more than SPIN_LIMIT times within ONE task poll belongs to a task that loops without ever
+/// returning to the executor (on a single-threaded runtime nothing else can run then)
+static EPOCH: AtomicU64 = AtomicU64::new(0);
+const SPIN_LIMIT: u32 = 200_000;
+
 struct Tap {
     inner: Tx,
-    log: Log,
+    log: Option<Log>,
+    epoch: u64,
+    calls: u32,
+}
+
+impl Tap {
+    fn new(inner: Tx, log: Option<Log>) -> Tap {
+        Tap { inner, log, epoch: 0, calls: 0 }
+    }
 }
 
 impl AsyncTransport for Tap {
     type Error = Disconnected;
     fn receive_poll(mut self: Pin<&mut Self>, cx: &mut Context) -> Poll<Result<Message, Disconnected>> {
+        let e = EPOCH.load(Ordering::Relaxed);
+        if self.epoch == e {
+            self.calls += 1;
+            if self.calls > SPIN_LIMIT {
+                self.calls = 0;
+                panic!("SPIN: receive_poll called {SPIN_LIMIT} times within a single poll of the task (busy loop that never yields)");
+            }
+        } else {
+            self.epoch = e;
+            self.calls = 0;
+        }
         let r = Pin::new(&mut self.inner).receive_poll(cx);
-        if let Poll::Ready(Ok(m)) = &r {
-            self.log.borrow_mut().push((false, m.clone()));
+        if let (Poll::Ready(Ok(m)), Some(log)) = (&r, &self.log) {
+            log.borrow_mut().push((false, m.clone()));
         }
         r
     }
@@ -424,7 +481,9 @@ impl AsyncTransport for Tap {
         Pin::new(&mut self.inner).send_poll_ready(cx)
     }
     fn send_start(mut self: Pin<&mut Self>, msg: Message) -> Result<(), Disconnected> {
-        self.log.borrow_mut().push((true, msg.clone()));
+        if let Some(log) = &self.log {
+            log.borrow_mut().push((true, msg.clone()));
+        }
         Pin::new(&mut self.inner).send_start(msg)
     }
     fn send_poll_flush(mut self: Pin<&mut Self>, cx: &mut Context) -> Poll<Result<(), Disconnected>> {
@@ -615,6 +674,8 @@ struct App {
     senders: Vec<SenderSt>,
     receivers: Vec<ReceiverSt>,
     listeners: Vec<BusListener>,
+    /// channel ends this client has held or bound so far: (cookie, is_sender)
+    bound: HashSet<(ChannelCookie, bool)>,
 }
 
 fn pick(i: u32, len: usize) -> Option<usize> {
@@ -642,6 +703,13 @@ impl App {
                 }
                 None
             }
+        }
+    }
+
+    /// a client that binds an end it already holds (or held) — the cookie types are `Copy`
+    fn note_bind(&mut self, c: ChannelCookie, sender: bool) {
+        if !self.bound.insert((c, sender)) {
+            stat(&self.b, "bind.double");
         }
     }
 
@@ -832,6 +900,10 @@ impl App {
                 let r = self.h.create_low_level_channel().claim_sender().await;
                 if let Some((ps, ur)) = self.api("create_channel_s", r, &[]) {
                     self.tag_of(ps.cookie());
+                    self.note_bind(ps.cookie(), true);
+                    if op.a == 1 {
+                        self.note_bind(ps.cookie(), false);
+                    }
                     self.pend_s.push(ps);
                     if op.a == 1 {
                         self.unc_r.push(ur);
@@ -844,6 +916,10 @@ impl App {
                 let r = self.h.create_low_level_channel().claim_receiver(op.a).await;
                 if let Some((us, pr)) = self.api("create_channel_r", r, &[]) {
                     self.tag_of(pr.cookie());
+                    self.note_bind(pr.cookie(), false);
+                    if op.b == 1 {
+                        self.note_bind(pr.cookie(), true);
+                    }
                     self.pend_r.push(pr);
                     if op.b == 1 {
                         self.unc_s.push(us);
@@ -858,6 +934,7 @@ impl App {
                     pick(op.a, bb.recv_ends.len()).map(|i| if op.c & 1 == 1 { bb.recv_ends[i] } else { bb.recv_ends.swap_remove(i) })
                 };
                 if let Some(c) = c {
+                    self.note_bind(c, false);
                     let unc = UnboundReceiver::new(c).bind(self.h.clone());
                     self.claim_r(unc, op.b, op.c & 2 != 0).await;
                 }
@@ -868,6 +945,7 @@ impl App {
                     pick(op.a, bb.send_ends.len()).map(|i| if op.b & 1 == 1 { bb.send_ends[i] } else { bb.send_ends.swap_remove(i) })
                 };
                 if let Some(c) = c {
+                    self.note_bind(c, true);
                     let unc = UnboundSender::new(c).bind(self.h.clone());
                     self.claim_s(unc, op.b & 2 != 0).await;
                 }
@@ -1195,6 +1273,7 @@ async fn app(who: usize, h: Handle, b: B, prog: Vec<Op>, barrier: Option<usize>)
         senders: vec![],
         receivers: vec![],
         listeners: vec![],
+        bound: HashSet::new(),
     };
     for (i, op) in prog.into_iter().enumerate() {
         yield_n((op.a + i as u32) % 3).await;
@@ -1252,7 +1331,7 @@ struct CaseResult {
     trace: Vec<Vec<(bool, Message)>>,
 }
 
-async fn setup(i: usize, t1: Tap, t2: Tx, mut bh: aldrin_broker::BrokerHandle, b: B, prog: Vec<Op>, barrier: Option<usize>) {
+async fn setup(i: usize, t1: Tap, t2: Tap, mut bh: aldrin_broker::BrokerHandle, b: B, prog: Vec<Op>, barrier: Option<usize>) {
     // both halves of the handshake are driven from this task
     let mut cf: Pin<Box<dyn Future<Output = _>>> = Box::pin(Client::connect(t1));
     let mut bf = Box::pin(bh.connect(t2));
@@ -1331,13 +1410,15 @@ fn run_case(case: &Case) -> CaseResult {
             (Box::new(a), Box::new(c))
         };
         let prog: Vec<Op> = case.ops.iter().filter(|(w, _)| *w == i).map(|(_, o)| *o).collect();
-        let tap = Tap { inner: t1, log: logs[i].clone() };
+        let tap = Tap::new(t1, Some(logs[i].clone()));
+        let t2 = Tap::new(t2, None);
         names.push(format!("setup{i}"));
         let barrier = if case.barrier { Some(case.n) } else { None };
         tasks.push(Some(Box::pin(setup(i, tap, t2, bh.clone(), b.clone(), prog, barrier))));
         flags.push(Arc::new(Flag(AtomicBool::new(true))));
     }
     let mut polls = 0u64;
+    let trace_sched = std::env::var("SCHED_TRACE").is_ok();
     let mut idle_requested = false;
     let mut fail: Option<Failure> = None;
     let broker_idle_done = Rc::new(Cell::new(false));
@@ -1385,7 +1466,11 @@ fn run_case(case: &Case) -> CaseResult {
         } else {
             ready[r.below(ready.len() as u64) as usize]
         };
+        if trace_sched {
+            eprintln!("poll {polls} {}", names[i]);
+        }
         flags[i].0.store(false, Ordering::SeqCst);
+        EPOCH.fetch_add(1, Ordering::Relaxed);
         let w: Waker = flags[i].clone().into();
         let mut cx = Context::from_waker(&w);
         let t = tasks[i].as_mut().unwrap();
@@ -1401,7 +1486,12 @@ fn run_case(case: &Case) -> CaseResult {
                     .iter()
                     .find_map(|p| site.find(p).map(|i| site[i..].to_string()))
                     .unwrap_or(site);
-                fail = Some(Failure { class: format!("PANIC {task} {site}"), detail: format!("task {} panicked at {msg}", names[i]) });
+                let func = enclosing_fn(&msg);
+                fail = Some(if msg.contains("SPIN: ") {
+                    Failure { class: format!("SPIN {task}"), detail: format!("task {} never returned from poll: {}", names[i], msg.split("SPIN: ").nth(1).unwrap_or("")) }
+                } else {
+                    Failure { class: format!("PANIC {task} {site} fn {func}"), detail: format!("task {} panicked in fn {func} at {msg}", names[i]) }
+                });
                 break;
             }
         }
@@ -1543,6 +1633,70 @@ fn shrink(case: &Case, f: &Failure) -> (Case, Failure, u64) {
 }
 
 // ------------------------------------------------------------------------------------------
+// classification of a failure (after shrinking) into the finding families of design/C06.md
+
+fn clear_cancels(c: &Case) -> Case {
+    let mut c = c.clone();
+    for (_, o) in c.ops.iter_mut() {
+        match o.k {
+            "clr" => o.c &= !2,
+            "cls" => o.b &= !2,
+            "llr" => o.c &= !1,
+            "lls" => o.b &= !1,
+            _ => {}
+        }
+    }
+    c
+}
+
+fn has_cancel(c: &Case) -> bool {
+    c.ops.iter().any(|(_, o)| match o.k {
+        "clr" => o.c & 2 != 0,
+        "cls" => o.b & 2 != 0,
+        "llr" => o.c & 1 != 0,
+        "lls" => o.b & 1 != 0,
+        _ => false,
+    })
+}
+
+/// (tag, case to store, its failure).  The tag is decided by the failing site AND by what the
+/// program does, never by the property alone:
+///  * `drain-abort-spin`: Client::run never returns from one poll
+///  * `refused-claim-assert`: the channel-map assertion of msg_close_channel_end_reply fires in a
+///    program that fails in the same way with every claim awaited to completion
+///  * `cancelled-claim-assert`: the same assertion, but only because a claim future was dropped
+///    while its request was in flight
+///  * `double-bind-closes-held-end`: the map assertion of req_send_item / req_add_channel_capacity
+///    fires in a run in which a client bound a channel end it already held
+fn classify(c: &Case, f: &Failure, runs: &mut u64) -> (String, Case, Failure) {
+    if f.class.starts_with("SPIN client.run") {
+        return ("drain-abort-spin".into(), c.clone(), f.clone());
+    }
+    if f.class.contains("fn msg_close_channel_end_reply") && f.detail.contains("contained.is_some()") {
+        if has_cancel(c) {
+            let c2 = clear_cancels(c);
+            for k in 0..3 {
+                let mut c3 = c2.clone();
+                c3.sched = c2.sched.wrapping_add(k * 7919);
+                if let Some((c4, f4)) = still_fails(&c3, &f.class, runs) {
+                    return ("refused-claim-assert".into(), c4, f4);
+                }
+            }
+            return ("cancelled-claim-assert".into(), c.clone(), f.clone());
+        }
+        return ("refused-claim-assert".into(), c.clone(), f.clone());
+    }
+    if f.class.contains("fn req_send_item") || f.class.contains("fn req_add_channel_capacity") {
+        *runs += 1;
+        let r = run_case_caught(c);
+        if r.stats.get("bind.double").copied().unwrap_or(0) > 0 {
+            return ("double-bind-closes-held-end".into(), c.clone(), f.clone());
+        }
+    }
+    ("other".into(), c.clone(), f.clone())
+}
+
+// ------------------------------------------------------------------------------------------
 // output
 
 fn fnv(s: &str) -> u64 {
@@ -1593,6 +1747,7 @@ struct Totals {
     distinct: HashSet<u64>,
     samples: Vec<String>,
     traced_msgs: u64,
+    tags: BTreeMap<String, u64>,
 }
 
 fn write_outputs(outdir: &str, cases: &[Case], results: Vec<CaseResult>, do_shrink: bool, want_trace: bool) {
@@ -1607,6 +1762,7 @@ fn write_outputs(outdir: &str, cases: &[Case], results: Vec<CaseResult>, do_shri
         distinct: HashSet::new(),
         samples: vec![],
         traced_msgs: 0,
+        tags: BTreeMap::new(),
     };
     let (mut cases_txt, mut impl_txt, mut mon_txt, mut trace_txt) = (String::new(), String::new(), String::new(), String::new());
     let mut shrunk_classes: HashSet<String> = HashSet::new();
@@ -1641,7 +1797,10 @@ fn write_outputs(outdir: &str, cases: &[Case], results: Vec<CaseResult>, do_shri
                 } else {
                     (c.clone(), f.clone(), 0)
                 };
-                writeln!(mon_txt, "{}\t{}\t{}\t{}\t{}", sf.class, ci, sc.text(), sf.detail.replace(['\n', '\t'], " "), runs).unwrap();
+                let mut runs = runs;
+                let (tag, sc, sf) = classify(&sc, &sf, &mut runs);
+                *t.tags.entry(tag.clone()).or_insert(0) += 1;
+                writeln!(mon_txt, "{}\t{}\t{}\t{}\t{}\t{}", sf.class, ci, sc.text(), sf.detail.replace(['\n', '\t'], " "), runs, tag).unwrap();
             }
         }
         if want_trace && r.fail.is_none() {
@@ -1664,7 +1823,7 @@ fn write_outputs(outdir: &str, cases: &[Case], results: Vec<CaseResult>, do_shri
     };
     let samples: Vec<String> = t.samples.iter().map(|s| json_str(s)).collect();
     let stats = format!(
-        "{{\"cases\": {}, \"failures\": {}, \"polls\": {}, \"ops\": {}, \"traced_msgs\": {}, \"distinct_nontrivial\": {}, \"distinct_hashes\": [{}], \"by_transport\": {}, \"by_clients\": {}, \"result_classes\": {}, \"samples\": [{}]}}\n",
+        "{{\"cases\": {}, \"failures\": {}, \"polls\": {}, \"ops\": {}, \"traced_msgs\": {}, \"distinct_nontrivial\": {}, \"distinct_hashes\": [{}], \"by_transport\": {}, \"by_clients\": {}, \"result_classes\": {}, \"failure_tags\": {}, \"samples\": [{}]}}\n",
         t.cases,
         t.failures,
         t.polls,
@@ -1675,6 +1834,7 @@ fn write_outputs(outdir: &str, cases: &[Case], results: Vec<CaseResult>, do_shri
         map(&t.by_fifo),
         map(&t.by_clients),
         map(&t.stats),
+        map(&t.tags),
         samples.join(", ")
     );
     std::fs::write(format!("{outdir}/stats.json"), stats).unwrap();
@@ -1710,7 +1870,17 @@ fn main() {
                     }
                 }
             }
-            let results: Vec<CaseResult> = cases.iter().map(run_case_caught).collect();
+            let verbose = std::env::var("SCHED_VERBOSE").is_ok();
+            let results: Vec<CaseResult> = cases
+                .iter()
+                .enumerate()
+                .map(|(i, c)| {
+                    if verbose {
+                        eprintln!("case {i}: {}", c.text());
+                    }
+                    run_case_caught(c)
+                })
+                .collect();
             write_outputs(outdir, &cases, results, !flag("--no-shrink"), flag("--trace"));
         }
         Some("run") if args.len() >= 4 => {
@@ -1728,7 +1898,7 @@ fn main() {
                 }
             }
             let results: Vec<CaseResult> = cases.iter().map(run_case_caught).collect();
-            write_outputs(&args[3], &cases, results, false, flag("--trace"));
+            write_outputs(&args[3], &cases, results, flag("--shrink"), flag("--trace"));
         }
         _ => {
             eprintln!("usage: sched gen <outdir> <cases> <ops-per-client> [--no-failing-claims] [--no-cancel-claims] [--no-shutdown-op] [--no-shrink] [--trace]\n       sched run <case-file> <outdir> [reps] [--trace]");
